@@ -214,6 +214,10 @@ func genFault(r *rng, n int, errOK bool) Fault {
 		f.Chunks = []int{r.between(1, 3), 0, 0, 1}
 	default:
 		f.Chunks = []int{r.between(8, 600)}
+		if r.chance(1, 3) {
+			// as much as the caller asks for, or a typical buffer size
+			f.Chunks = []int{pick(r, []int{512, 1024, 4096, 8192, 65536, 1 << 20})}
+		}
 	}
 	f.EOFWithData = r.chance(1, 3)
 	f.WriterTo = r.chance(1, 4)
